@@ -191,26 +191,40 @@ theorem pass_inv (l out : List Tok) (h : InvIn l)
 def NodeTame (l : List Tok) : Prop := tameFromFr false l = true
 
 /-- the invariant of the fold, by mutual induction over the realization relation -/
-theorem fold_inv (place format : Nat → List Tok → List Tok) (hp : PlaceOK place) (hf : FormatOK format) :
-    ∀ (t : Tree) (out : List Tok) (ins lvs : List (List Tok)), Real place format t out ins lvs →
+theorem fold_inv_at (place format : Nat → List Tok → List Tok) (hf : FormatOK format) :
+    ∀ (t : Tree) (out : List Tok) (ins lvs : List (List Tok)) (cats : List (Nat × List Tok)),
+      Real place format t out ins lvs cats → PlaceOKAt place cats →
       (∀ ts ∈ lvs, InvOut ts) → (∀ inp ∈ ins, NodeTame inp) → InvOut out := by
-  intro t out ins lvs h
+  intro t out ins lvs cats h
   refine Real.rec (place := place) (format := format)
-    (motive_1 := fun _ out ins lvs _ => (∀ ts ∈ lvs, InvOut ts) → (∀ inp ∈ ins, NodeTame inp) → InvOut out)
-    (motive_2 := fun _ cat ins lvs _ => (∀ ts ∈ lvs, InvOut ts) → (∀ inp ∈ ins, NodeTame inp) → InvIn cat)
+    (motive_1 := fun _ out ins lvs cats _ => PlaceOKAt place cats → (∀ ts ∈ lvs, InvOut ts) →
+      (∀ inp ∈ ins, NodeTame inp) → InvOut out)
+    (motive_2 := fun _ cat ins lvs cats _ => PlaceOKAt place cats → (∀ ts ∈ lvs, InvOut ts) →
+      (∀ inp ∈ ins, NodeTame inp) → InvIn cat)
     ?_ ?_ ?_ ?_ h
-  · intro ts hl _
+  · intro ts _ hl _
     exact hl ts (by simp)
-  · intro id cs cat out ins lvs _ hgo ihAll hl ht
-    have hin := hp id cat (ihAll hl (fun inp hi => ht inp (List.mem_cons_of_mem _ hi)))
+  · intro id cs cat out ins lvs cats _ hgo ihAll hp hl ht
+    have hcat := ihAll (fun p hp' => hp p (List.mem_cons_of_mem _ hp')) hl
+      (fun inp hi => ht inp (List.mem_cons_of_mem _ hi))
+    have hin := hp (id, cat) (by simp) hcat
     have tame := ht (place id cat) (by simp)
     exact format_inv format hf id out (pass_inv _ _ hin tame hgo)
-  · intro _ _
+  · intro _ _ _
     exact ⟨by intro t ht; simp at ht, rfl, by intro t ht; simp at ht⟩
-  · intro c cs a b i1 i2 l1 l2 _ _ ih1 ih2 hl ht
-    have ha := ih1 (fun ts h => hl ts (List.mem_append_left _ h)) (fun inp h => ht inp (List.mem_append_left _ h))
-    have hb := ih2 (fun ts h => hl ts (List.mem_append_right _ h)) (fun inp h => ht inp (List.mem_append_right _ h))
+  · intro c cs a b i1 i2 l1 l2 c1 c2 _ _ ih1 ih2 hp hl ht
+    have ha := ih1 (fun p h => hp p (List.mem_append_left _ h)) (fun ts h => hl ts (List.mem_append_left _ h))
+      (fun inp h => ht inp (List.mem_append_left _ h))
+    have hb := ih2 (fun p h => hp p (List.mem_append_right _ h)) (fun ts h => hl ts (List.mem_append_right _ h))
+      (fun inp h => ht inp (List.mem_append_right _ h))
     exact inv_append a b ha hb
+
+theorem fold_inv (place format : Nat → List Tok → List Tok) (hp : PlaceOK place) (hf : FormatOK format) :
+    ∀ (t : Tree) (out : List Tok) (ins lvs : List (List Tok)) (cats : List (Nat × List Tok)),
+      Real place format t out ins lvs cats →
+      (∀ ts ∈ lvs, InvOut ts) → (∀ inp ∈ ins, NodeTame inp) → InvOut out :=
+  fun t out ins lvs cats h hl ht =>
+    fold_inv_at place format hf t out ins lvs cats h (fun p _ hi => hp p.1 p.2 hi) hl ht
 
 /-! ### the identity `place` / `format`, single fresh leaves (used by the witnesses of Props/C06) -/
 
